@@ -202,31 +202,24 @@ func H_ed25519fp_constants() {
 	verifAssert("const.2^512_minus_1", verifLimbs4(f.Bytes()) == [4]uint64{1443, 0, 0, 0})
 }
 
-// H_ed25519fp_wide_64: ALL 64-byte inputs (512 symbolic bits), one query per obligation.
-func H_ed25519fp_wide_64() {
+// H_ed25519fp_wide_64_monolithic_EXPECT_INCONCLUSIVE: ALL 64-byte inputs (512 symbolic bits)
+// against the 64-bit reference, one query per obligation, real primitives. Kept as the record of
+// the attempt: wide.equals_X_mod_p and wide.identity_* do not finish (600 s: z3 4.8.12 unknown;
+// z3 5.1 and cvc5 no answer), so the expected status is inconclusive. The full-width result is
+// H_ed25519fp_wide_composed_64 below.
+func H_ed25519fp_wide_64_monolithic_EXPECT_INCONCLUSIVE() {
 	data := verifBytes(64)
-	verifReach("ed25519fp_wide_64")
+	verifReach("ed25519fp_wide_64_monolithic")
 	verifWideCheck(data)
 }
 
-// H_ed25519fp_wide_64_split: the same, case-split on the two special bits (bit 255, bit 511), so
-// that the library's two Selects have concrete choices on each of the four paths.
-func H_ed25519fp_wide_64_split() {
-	data := verifBytes(64)
-	b255 := verifLen(0, 1)
-	b511 := verifLen(0, 1)
-	verifAssume(int(data[31]>>7) == b255)
-	verifAssume(int(data[63]>>7) == b511)
-	verifReach("ed25519fp_wide_64_split")
-	verifWideCheck(data)
-}
-
-// H_ed25519fp_wide_short: lengths 0, 1, 31, 32, 33, 63 (missing high bytes are zero), all
-// contents symbolic.
-func H_ed25519fp_wide_short() {
-	lens := []int{0, 1, 31, 32, 33, 63}
-	data := verifBytes(lens[verifLen(0, 5)])
-	verifReach("ed25519fp_wide_short")
+// H_ed25519fp_wide_short_monolithic: lengths 0, 1, 31, 32 (the high half is zero), all contents
+// symbolic, real primitives, against the 64-bit reference. (Lengths 33 and 63 are covered at
+// full width by H_ed25519fp_wide_composed_short.)
+func H_ed25519fp_wide_short_monolithic() {
+	lens := []int{0, 1, 31, 32}
+	data := verifBytes(lens[verifLen(0, 3)])
+	verifReach("ed25519fp_wide_short_monolithic")
 	verifWideCheck(data)
 }
 
@@ -332,16 +325,21 @@ func H_ed25519fp_bytes_canonical() {
 	verifAssert("bytes.roundtrip", verifLimbs4(g.Bytes()) == verifLimbs4(bs))
 }
 
-// ---- shrunk instances of the 64-byte obligation (see README note in the report) ----
+// ---- shrunk instance of the monolithic 64-byte obligation ----
 
 // verifShrunk64 returns a 64-byte input with 4*k fully symbolic bytes (the k lowest and the k
 // highest bytes of each 32-byte half: carries enter at the bottom, the special bits 255 and 511
-// and the reduction happen at the top) and every other byte of a half equal to ONE shared
-// symbolic byte per half ("arbitrary but fewer bits"). Symbolic bits: 32*k + 16.
+// and the reduction happen at the top); every other byte is the constant 0x00 or 0xa5 (chosen
+// per half by a fork: 4 paths). Symbolic bits: 32*k. This is how far the MONOLITHIC query (real
+// primitives, 64-bit reference) gets: k = 1 (32 symbolic bits) in minutes; with fill 0xff or
+// k = 2 single queries already exceed 100 s.
 func verifShrunk64(k int) []byte {
 	data := make([]byte, 64)
 	for h := 0; h < 2; h++ {
-		fill := verifU8()
+		fill := byte(0x00)
+		if verifLen(0, 1) == 1 {
+			fill = 0xa5
+		}
 		for i := 0; i < 32; i++ {
 			if i < k || i >= 32-k {
 				data[32*h+i] = verifU8()
@@ -353,27 +351,9 @@ func verifShrunk64(k int) []byte {
 	return data
 }
 
-func H_ed25519fp_wide_shrunk_k1() {
+func H_ed25519fp_wide_shrunk_k1_monolithic() {
 	data := verifShrunk64(1)
-	verifReach("ed25519fp_wide_shrunk_k1")
-	verifWideCheck(data)
-}
-
-func H_ed25519fp_wide_shrunk_k2() {
-	data := verifShrunk64(2)
-	verifReach("ed25519fp_wide_shrunk_k2")
-	verifWideCheck(data)
-}
-
-func H_ed25519fp_wide_shrunk_k4() {
-	data := verifShrunk64(4)
-	verifReach("ed25519fp_wide_shrunk_k4")
-	verifWideCheck(data)
-}
-
-func H_ed25519fp_wide_shrunk_k8() {
-	data := verifShrunk64(8)
-	verifReach("ed25519fp_wide_shrunk_k8")
+	verifReach("ed25519fp_wide_shrunk_k1_monolithic")
 	verifWideCheck(data)
 }
 
@@ -419,6 +399,26 @@ func verifNorm51(c [5]uint64) (out [6]uint64) {
 	return out
 }
 
+// verifDecomposition recomposes lo + 2^255*b255 + 2^256*hi + 2^511*b511 from the columns by
+// placing every piece at its bit offset (pieces are disjoint, so OR is addition).
+func verifDecomposition(lo, hi [5]uint64, b255, b511 uint64) (y [8]uint64) {
+	for i := 0; i < 5; i++ {
+		for _, part := range []struct {
+			v   uint64
+			off int
+		}{{lo[i], 51 * i}, {hi[i], 256 + 51*i}} {
+			j, sh := part.off/64, uint(part.off%64)
+			y[j] |= part.v << sh
+			if sh > 13 {
+				y[j+1] |= part.v >> (64 - sh)
+			}
+		}
+	}
+	y[3] |= b255 << 63
+	y[7] |= b511 << 63
+	return y
+}
+
 func verifWideCheck51(data []byte) {
 	data0 := append([]byte{}, data...)
 	var f Fp
@@ -436,23 +436,7 @@ func verifWideCheck51(data []byte) {
 		r[i] = verifBits(got[:], 51*i, 51)
 	}
 	b255, b511 := verifBits(x, 255, 1), verifBits(x, 511, 1)
-	// the decomposition covers every input bit exactly once
-	var y [8]uint64
-	for i := 0; i < 5; i++ {
-		for _, part := range []struct {
-			v   uint64
-			off int
-		}{{lo[i], 51 * i}, {hi[i], 256 + 51*i}} {
-			j, sh := part.off/64, uint(part.off%64)
-			y[j] |= part.v << sh
-			if sh > 13 {
-				y[j+1] |= part.v >> (64 - sh)
-			}
-		}
-	}
-	y[3] |= b255 << 63
-	y[7] |= b511 << 63
-	verifAssert("wide51.decomposition", y == x8)
+	verifAssert("wide51.decomposition", verifDecomposition(lo, hi, b255, b511) == x8)
 	verifAssert("wide51.got_is_4_limbs_of_255_bits", got[3]>>63 == 0)
 
 	// S as columns
@@ -477,34 +461,18 @@ func verifWideCheck51(data []byte) {
 	verifAssert("wide51.out_plus_kp_eq_lo_19b255_38hi_722b511", verifNorm51(a) == ns)
 }
 
-// H_ed25519fp_wide51_64: ALL 64-byte inputs (512 symbolic bits).
-func H_ed25519fp_wide51_64() {
+// H_ed25519fp_wide51_64_monolithic_EXPECT_INCONCLUSIVE: ALL 64-byte inputs, radix-2^51 identity,
+// real primitives, one query: does not finish either (600 s on z3 4.8.12, z3 5.1, cvc5).
+func H_ed25519fp_wide51_64_monolithic_EXPECT_INCONCLUSIVE() {
 	data := verifBytes(64)
-	verifReach("ed25519fp_wide51_64")
+	verifReach("ed25519fp_wide51_64_monolithic")
 	verifWideCheck51(data)
 }
 
-// H_ed25519fp_wide51_short: lengths 0, 1, 31, 32, 33, 63.
-func H_ed25519fp_wide51_short() {
-	lens := []int{0, 1, 31, 32, 33, 63}
-	data := verifBytes(lens[verifLen(0, 5)])
-	verifReach("ed25519fp_wide51_short")
-	verifWideCheck51(data)
-}
-
-func H_ed25519fp_wide51_shrunk_k1() {
-	data := verifShrunk64(1)
-	verifReach("ed25519fp_wide51_shrunk_k1")
-	verifWideCheck51(data)
-}
-
-// ---- full-width lemmas about the generated primitives SetBytesWide is made of ----
+// ---- helpers for the lemmas about the generated primitives ----
 //
 // eval z = z[0] + z[1]*2^51 + ... + z[4]*2^204 (fiat's definition). "Tight" = every limb
-// <= 2^51 (fiat's tight bound 0x8000000000000). Each lemma holds for ALL tight inputs and is an
-// identity of integers, checked column-wise in radix 2^51 after carry propagation:
-//	eval(out) + k*p == <exact integer result>,   k given explicitly,
-// together with "out is tight" (so the lemmas chain). SetBytesWide is the composition
+// <= 2^51 (fiat's tight bound 0x8000000000000). SetBytesWide is the composition
 //	lo  = FromBytes(lo')                          eval = lo'
 //	hi  = CarryMul(FromBytes(hi'), 38)            eval = 38*hi' - k1*p
 //	lo2 = CarryAdd(lo, Select(b255, 0, 19))       eval = lo' + 19*b255 - k2*p
@@ -520,14 +488,6 @@ func verifTight() (f fiatFpTightFieldElement) {
 	return f
 }
 
-func verifIsTight(f *fiatFpTightFieldElement) bool {
-	var bad uint64
-	for i := range f {
-		bad += verifB2U(f[i] > 1<<51)
-	}
-	return bad == 0
-}
-
 // verifColsKP returns the columns of z + k*p.
 func verifColsKP(z [5]uint64, k uint64) (a [5]uint64) {
 	a[0] = z[0] + k*(verifMask51-18)
@@ -535,122 +495,6 @@ func verifColsKP(z [5]uint64, k uint64) (a [5]uint64) {
 		a[i] = z[i] + k*verifMask51
 	}
 	return a
-}
-
-// H_ed25519fp_lemma_frombytes: for every 32-byte string with bit 255 clear the limbs are the
-// 51-bit slices of the little-endian integer (so eval = that integer, and every limb < 2^51).
-func H_ed25519fp_lemma_frombytes() {
-	data := verifBytes(32)
-	verifAssume(data[31]>>7 == 0)
-	verifReach("ed25519fp_lemma_frombytes")
-	var f Fp
-	ok := f.SetBytes(data)
-	x := verifLimbs4(data)
-	verifAssert("lemma.frombytes.ok", ok == 1)
-	for i := 0; i < 5; i++ {
-		verifAssert("lemma.frombytes.limb_is_51_bit_slice", f.v[i] == verifBits(x[:], 51*i, 51))
-	}
-}
-
-// H_ed25519fp_lemma_carrymul38: for every tight h, out = h * {38,0,0,0,0} (as SetBytesWide calls
-// Mul with SetUint64(2*19)) is tight and eval(out) + k*p == 38*eval(h), k = floor(38*eval(h)/2^255).
-func H_ed25519fp_lemma_carrymul38() {
-	h := verifTight()
-	verifReach("ed25519fp_lemma_carrymul38")
-	var x, c, out Fp
-	x.v = h
-	c.SetUint64(19 * 2)
-	verifAssert("lemma.carrymul38.constant_limbs", c.v == fiatFpTightFieldElement{38, 0, 0, 0, 0})
-	out.Mul(&x, &c)
-	var want [5]uint64
-	for i := range want {
-		want[i] = 38 * h[i] // < 2^57
-	}
-	nw := verifNorm51(want)
-	k := nw[5]
-	verifAssert("lemma.carrymul38.tight", verifIsTight(&out.v))
-	verifAssert("lemma.carrymul38.k_small", k <= 38)
-	verifAssert("lemma.carrymul38.eval_plus_kp_eq_38_eval", verifNorm51(verifColsKP(out.v, k)) == nw)
-	verifAssert("lemma.carrymul38.operand_untouched", x.v == h)
-}
-
-// H_ed25519fp_lemma_carryadd: for all tight a, b: out = a + b is tight and
-// eval(out) + k*p == eval(a) + eval(b), k = floor((eval a + eval b)/2^255) (0, 1 or 2).
-func H_ed25519fp_lemma_carryadd() {
-	a, b := verifTight(), verifTight()
-	verifReach("ed25519fp_lemma_carryadd")
-	var x, y, out Fp
-	x.v, y.v = a, b
-	out.Add(&x, &y)
-	var want [5]uint64
-	for i := range want {
-		want[i] = a[i] + b[i]
-	}
-	nw := verifNorm51(want)
-	k := nw[5]
-	verifAssert("lemma.carryadd.tight", verifIsTight(&out.v))
-	verifAssert("lemma.carryadd.k_small", k <= 2)
-	verifAssert("lemma.carryadd.eval_plus_kp_eq_sum", verifNorm51(verifColsKP(out.v, k)) == nw)
-	// aliasing as in SetBytesWide (lo.Add(&lo, &pLo))
-	x.Add(&x, &y)
-	verifAssert("lemma.carryadd.aliased_receiver_same_result", x.v == out.v)
-}
-
-// H_ed25519fp_lemma_select: Select(choice, z, nz) for choice in {0,1}, arbitrary limbs.
-func H_ed25519fp_lemma_select() {
-	var z, nz, out Fp
-	for i := 0; i < 5; i++ {
-		z.v[i], nz.v[i] = verifU64(), verifU64()
-	}
-	c := verifU64()
-	verifAssume(c <= 1)
-	verifReach("ed25519fp_lemma_select")
-	out.Select(ctChoice(c), &z, &nz)
-	for i := 0; i < 5; i++ {
-		verifAssert("lemma.select", out.v[i] == verifIteU64(c == 0, z.v[i], nz.v[i]))
-	}
-	// aliased receiver as in f.Select(ok, f, &out)
-	z0 := z.v
-	z.Select(ctChoice(c), &z, &nz)
-	for i := 0; i < 5; i++ {
-		verifAssert("lemma.select.aliased", z.v[i] == verifIteU64(c == 0, z0[i], nz.v[i]))
-	}
-}
-
-// H_ed25519fp_lemma_tobytes: for every tight f the 32 bytes R are canonical (R < p, bit 255
-// clear) and R + k*p == eval(f) with k = [eval(f) >= p] (eval(f) < 2p for tight f).
-func H_ed25519fp_lemma_tobytes() {
-	f := verifTight()
-	verifReach("ed25519fp_lemma_tobytes")
-	var x Fp
-	x.v = f
-	got := verifLimbs4(x.Bytes())
-	var r [5]uint64
-	for i := 0; i < 5; i++ {
-		r[i] = verifBits(got[:], 51*i, 51)
-	}
-	nf := verifNorm51([5]uint64(f))
-	allOnes := verifB2U(nf[1] == verifMask51) & verifB2U(nf[2] == verifMask51) & verifB2U(nf[3] == verifMask51) & verifB2U(nf[4] == verifMask51)
-	k := nf[5] | allOnes&verifB2U(nf[0] >= verifMask51-18)
-	verifAssert("lemma.tobytes.lt_p", verifLess4(got, verifFpP()) == 1 && got[3]>>63 == 0)
-	verifAssert("lemma.tobytes.k_is_0_or_1", k <= 1)
-	verifAssert("lemma.tobytes.R_plus_kp_eq_eval", verifNorm51(verifColsKP(r, k)) == nf)
-}
-
-// H_ed25519fp_lemma_MUSTFAIL: wrong twin (claims Mul by 38 multiplies by 37).
-func H_ed25519fp_lemma_MUSTFAIL() {
-	h := verifTight()
-	verifReach("ed25519fp_lemma_mustfail")
-	var x, c, out Fp
-	x.v = h
-	c.SetUint64(19 * 2)
-	out.Mul(&x, &c)
-	var want [5]uint64
-	for i := range want {
-		want[i] = 37 * h[i]
-	}
-	nw := verifNorm51(want)
-	verifAssert("lemma.carrymul38.wrong_37", verifNorm51(verifColsKP(out.v, nw[5])) == nw)
 }
 
 // ---- machine-checked composition: SetBytesWide over CONTRACTS of the primitives ----
@@ -670,7 +514,7 @@ func H_ed25519fp_lemma_MUSTFAIL() {
 //
 // Post-conditions are integer identities "eval(out) + k*p == exact result" in CERTIFICATE form:
 // columns A (left side) and B (right side) in radix 2^51 and explicit signed carries c with
-//	A[i] + c[i-1] == B[i] + 2^51*c[i]   (i = 0..4, c[-1] = 0),   c[4] == 0,   |c[i]| <= 2^12
+//	A[i] + c[i-1] == B[i] + 2^51*c[i]   (i = 0..4, c[-1] = 0),   c[4] == 0,   |c[i]| <= 2^7
 // (verifCertHolds). All columns are < 2^59 and carries are tiny, so these 64-bit equations do not
 // wrap and are equations of integers; multiplying column i by 2^(51 i) and adding gives
 // sum(A) == sum(B). Certificates of successive steps ADD column-wise, which is word-level linear
@@ -684,8 +528,19 @@ var verifUseContracts bool
 var verifGhostN int
 var verifGhostK [8]uint64
 var verifGhostC [8][5]uint64
+var verifGhostR [5]uint64 // digits of the bytes returned by the ToBytes contract
 
-const verifCarryBound = uint64(1) << 12
+// verifPack51 packs five 51-bit digits into four 64-bit limbs.
+func verifPack51(d [5]uint64) [4]uint64 {
+	return [4]uint64{
+		d[0] | d[1]<<51,
+		d[1]>>13 | d[2]<<38,
+		d[2]>>26 | d[3]<<25,
+		d[3]>>39 | d[4]<<12,
+	}
+}
+
+const verifCarryBound = uint64(1) << 7
 
 // verifCertHolds: the certificate equations with carries c (two's complement), |c[i]| <= bound.
 func verifCertHolds(a, b, c [5]uint64, bound uint64) bool {
@@ -771,18 +626,20 @@ func verifDigits(r [4]uint64) (d [5]uint64) {
 // post-conditions, shared by the lemmas (asserted of the real code, with computed witnesses) and
 // by the contracts (assumed of fresh outputs and fresh carries)
 
-// CarryAdd: out tight, eval(out) + k*p == eval(a) + eval(b), k = floor((eval a + eval b)/2^255).
+// CarryAdd: out tight, eval(out) + k*p == eval(a) + eval(b) for some k <= 2 (the lemma exhibits
+// k = floor((eval a + eval b)/2^255)).
 func verifPostCarryAdd(a, b, out, c [5]uint64, k uint64) []bool {
 	want := verifColSum(a, b)
-	conds := []bool{k == verifNorm51(want)[5]}
+	conds := []bool{k <= 2}
 	conds = append(conds, verifTightConds(out)...)
 	return append(conds, verifCertConds(verifColsKP(out, k), want, c, verifCarryBound)...)
 }
 
-// CarryMul by {38,0,0,0,0}: out tight, eval(out) + k*p == 38*eval(h), k = floor(38*eval(h)/2^255).
+// CarryMul by {38,0,0,0,0}: out tight, eval(out) + k*p == 38*eval(h) for some k <= 38 (the lemma
+// exhibits k = floor(38*eval(h)/2^255)).
 func verifPostCarryMul38(h, out, c [5]uint64, k uint64) []bool {
 	want := verifColTimes38(h)
-	conds := []bool{k == verifNorm51(want)[5]}
+	conds := []bool{k <= 38}
 	conds = append(conds, verifTightConds(out)...)
 	return append(conds, verifCertConds(verifColsKP(out, k), want, c, verifCarryBound)...)
 }
@@ -794,10 +651,11 @@ func verifGeP(f [5]uint64) uint64 {
 	return nf[5] | allOnes&verifB2U(nf[0] >= verifMask51-18)
 }
 
-// ToBytes: R < p (bit 255 clear), R + k*p == eval(f), k = [eval(f) >= p].
+// ToBytes: R < p (bit 255 clear), R + k*p == eval(f) for some k <= 1 (the lemma exhibits
+// k = [eval(f) >= p]).
 func verifPostToBytes(f [5]uint64, out [32]uint8, c [5]uint64, k uint64) []bool {
 	r := verifLimbs4(out[:])
-	conds := []bool{k == verifGeP(f), verifLess4(r, verifFpP()) == 1, r[3]>>63 == 0}
+	conds := []bool{k <= 1, verifLess4(r, verifFpP()) == 1, r[3]>>63 == 0}
 	return append(conds, verifCertConds(verifColsKP(verifDigits(r), k), f, c, verifCarryBound)...)
 }
 
@@ -811,6 +669,18 @@ func verifPostSelect(c uint64, z, nz, out [5]uint64) bool {
 		bad += verifB2U(out[i] != verifIteU64(c == 0, z[i], nz[i]))
 	}
 	return bad == 0
+}
+
+// verifCertSolve returns the unique z with z + k*p (columns) certified equal to want by carries
+// c, i.e. verifCertConds(verifColsKP(z, k), want, c, .) holds column by column (mod 2^64).
+func verifCertSolve(want, c [5]uint64, k uint64) (z [5]uint64) {
+	pcol := [5]uint64{verifMask51 - 18, verifMask51, verifMask51, verifMask51, verifMask51}
+	var prev uint64
+	for i := 0; i < 5; i++ {
+		z[i] = want[i] + c[i]<<51 - k*pcol[i] - prev
+		prev = c[i]
+	}
+	return z
 }
 
 func verifFresh5() (x [5]uint64) {
@@ -833,8 +703,11 @@ func verifCtrCarryAdd(out1 *fiatFpTightFieldElement, arg1 *fiatFpTightFieldEleme
 		return
 	}
 	a, b := [5]uint64(*arg1), [5]uint64(*arg2)
-	verifAssert("contract.carryadd.pre_tight", verifTightArr(&a) && verifTightArr(&b))
-	out, c, k := verifFresh5(), verifFresh5(), verifU64()
+	verifAssertGhost("contract.carryadd.pre_tight", verifTightArr(&a) && verifTightArr(&b))
+	// fresh k and carries; out is then determined by the certificate equations (this ranges over
+	// exactly the triples (out, k, c) that satisfy them); the remaining conditions are assumed
+	c, k := verifFresh5(), verifU64()
+	out := verifCertSolve(verifColSum(a, b), c, k)
 	verifAssumeAll(verifPostCarryAdd(a, b, out, c, k))
 	verifGhostPush(k, c)
 	*out1 = out
@@ -846,8 +719,9 @@ func verifCtrCarryMul(out1 *fiatFpTightFieldElement, arg1 *fiatFpLooseFieldEleme
 		return
 	}
 	h, m := [5]uint64(*arg1), [5]uint64(*arg2)
-	verifAssert("contract.carrymul38.pre", verifTightArr(&h) && m == [5]uint64{38, 0, 0, 0, 0})
-	out, c, k := verifFresh5(), verifFresh5(), verifU64()
+	verifAssertGhost("contract.carrymul38.pre", verifTightArr(&h) && m == [5]uint64{38, 0, 0, 0, 0})
+	c, k := verifFresh5(), verifU64()
+	out := verifCertSolve(verifColTimes38(h), c, k)
 	verifAssumeAll(verifPostCarryMul38(h, out, c, k))
 	verifGhostPush(k, c)
 	*out1 = out
@@ -859,12 +733,20 @@ func verifCtrToBytes(out1 *[32]uint8, arg1 *fiatFpTightFieldElement) {
 		return
 	}
 	f := [5]uint64(*arg1)
-	verifAssert("contract.tobytes.pre_tight", verifTightArr(&f))
-	var out [32]uint8
-	copy(out[:], verifBytes(32))
+	verifAssertGhost("contract.tobytes.pre_tight", verifTightArr(&f))
 	c, k := verifFresh5(), verifU64()
+	r := verifCertSolve(f, c, k) // digits of R
+	for i := range r {
+		verifAssume(r[i] <= verifMask51)
+	}
+	r4 := verifPack51(r)
+	var out [32]uint8
+	for i := range out {
+		out[i] = uint8(r4[i/8] >> (8 * uint(i%8)))
+	}
 	verifAssumeAll(verifPostToBytes(f, out, c, k))
 	verifGhostPush(k, c)
+	verifGhostR = r
 	*out1 = out
 }
 
@@ -874,7 +756,7 @@ func verifCtrFromBytes(out1 *fiatFpTightFieldElement, arg1 *[32]uint8) {
 		return
 	}
 	in := *arg1
-	verifAssert("contract.frombytes.pre_bit255_clear", in[31]>>7 == 0)
+	verifAssertGhost("contract.frombytes.pre_bit255_clear", in[31]>>7 == 0)
 	*out1 = verifDigits(verifLimbs4(in[:])) // the post-condition determines the output
 }
 
@@ -883,7 +765,7 @@ func verifCtrSelect(out1 *[5]uint64, arg1 fiatFpUint1, arg2 *[5]uint64, arg3 *[5
 		fiatFpSelectznz(out1, arg1, arg2, arg3)
 		return
 	}
-	verifAssert("contract.select.pre_bit", arg1 <= 1)
+	verifAssertGhost("contract.select.pre_bit", arg1 <= 1)
 	z, nz := *arg2, *arg3
 	for i := 0; i < 5; i++ {
 		out1[i] = verifIteU64(arg1 == 0, z[i], nz[i])
@@ -960,8 +842,10 @@ func H_ed25519fp_cert_frombytes_select() {
 }
 
 // verifWideComposed: SetBytesWide + Bytes over the contracts; the final certificate is the
-// column-wise sum of the five recorded ones.
-func verifWideComposed(data []byte) {
+// column-wise sum of the five recorded ones. weight is 38 (any other value gives a wrong claim,
+// used by the control). Conditions that read ghost state are verifAssertGhost (the native twin
+// runs the real primitives and has no certificates).
+func verifWideComposed(data []byte, weight uint64) {
 	data0 := append([]byte{}, data...)
 	verifUseContracts = true
 	var f Fp
@@ -970,10 +854,7 @@ func verifWideComposed(data []byte) {
 	verifUseContracts = false
 	verifAssert("composed.ok", ok == 1)
 	// contracts entered: CarryMul, CarryAdd x3, ToBytes
-	verifAssert("composed.five_certificates", verifGhostN == 5)
-	if verifGhostN != 5 {
-		return
-	}
+	verifAssertGhost("composed.five_certificates", verifGhostN == 5)
 	var kSum uint64
 	var cSum [5]uint64
 	for j := 0; j < 5; j++ {
@@ -984,28 +865,53 @@ func verifWideComposed(data []byte) {
 	}
 	x8 := verifLimbs8(data0)
 	x := x8[:]
-	var s [5]uint64
+	var lo, hi, s [5]uint64
 	for i := 0; i < 5; i++ {
-		s[i] = verifBits(x, 51*i, 51) + 38*verifBits(x, 256+51*i, 51)
+		lo[i] = verifBits(x, 51*i, 51)
+		hi[i] = verifBits(x, 256+51*i, 51)
+		s[i] = lo[i] + weight*hi[i]
 	}
-	s[0] += 19*verifBits(x, 255, 1) + 722*verifBits(x, 511, 1)
+	b255, b511 := verifBits(x, 255, 1), verifBits(x, 511, 1)
+	s[0] += 19*b255 + 722*b511
+	verifAssert("composed.decomposition_X_eq_lo_b255_hi_b511", verifDecomposition(lo, hi, b255, b511) == x8)
+	r := verifGhostR
+	verifAssertGhost("composed.ghost_digits_are_digits_of_bytes", r == verifDigits(got))
 	verifAssert("composed.lt_p", verifLess4(got, verifFpP()) == 1)
-	verifAssert("composed.K_small", kSum <= 64)
-	for _, cond := range verifCertConds(verifColsKP(verifDigits(got), kSum), s, cSum, 5*verifCarryBound) {
-		verifAssert("composed.bytes_plus_Kp_eq_lo_19b255_38hi_722b511", cond)
+	verifAssertGhost("composed.K_small", kSum <= 64)
+	// the certificate of R + K*p == S with K = sum k_j and carries C = sum c_j, written as the
+	// column-wise SUM of the five recorded certificates (K*p_i as sum of k_j*p_i, 2^51*C_i as sum
+	// of c_j[i] << 51: the same 64-bit values, in the form in which the five assumed equations add
+	// up to the asserted one). With r_i < 2^51, K <= 64, s_i < 2^58 and |C_i| <= 5*2^7 every side
+	// is below 2^62 in absolute value, so the equations hold over the integers; times 2^(51 i) and
+	// summed (C_4 = 0, the carries telescope) they give R + K*p == S.
+	pcol := [5]uint64{verifMask51 - 18, verifMask51, verifMask51, verifMask51, verifMask51}
+	for i := 0; i < 5; i++ {
+		lhs, rhs := r[i], s[i]
+		for j := 0; j < 5; j++ {
+			lhs += verifGhostK[j] * pcol[i]
+			if i > 0 {
+				lhs += verifGhostC[j][i-1]
+			}
+			rhs += verifGhostC[j][i] << 51
+		}
+		verifAssertGhost("composed.bytes_plus_Kp_eq_lo_19b255_38hi_722b511", lhs == rhs)
+		verifAssertGhost("composed.carries_small", cSum[i]+5*verifCarryBound <= 10*verifCarryBound)
 	}
+	verifAssertGhost("composed.top_carry_zero", cSum[4] == 0)
 	same := uint64(0)
 	for i := range data0 {
 		same += verifB2U(data[i] != data0[i])
 	}
 	verifAssert("composed.input_untouched", same == 0)
+	// the contract assumptions are jointly satisfiable on this path (vacuity guard)
+	verifReach("ed25519fp_wide_composed_end")
 }
 
 // H_ed25519fp_wide_composed_64: ALL 64-byte inputs (512 symbolic bits).
 func H_ed25519fp_wide_composed_64() {
 	data := verifBytes(64)
 	verifReach("ed25519fp_wide_composed_64")
-	verifWideComposed(data)
+	verifWideComposed(data, 38)
 }
 
 // H_ed25519fp_wide_composed_short: lengths 0, 1, 31, 32, 33, 63.
@@ -1013,7 +919,18 @@ func H_ed25519fp_wide_composed_short() {
 	lens := []int{0, 1, 31, 32, 33, 63}
 	data := verifBytes(lens[verifLen(0, 5)])
 	verifReach("ed25519fp_wide_composed_short")
-	verifWideComposed(data)
+	verifWideComposed(data, 38)
+}
+
+// H_ed25519fp_wide_composed_wrong_EXPECT_INCONCLUSIVE (control, expected status: inconclusive for
+// composed.bytes_plus_Kp_*): the composed statement with weight 37 for the high half is NOT
+// provable from the contracts (so the composition proves nothing vacuously); the counterexample
+// lives in ghost state and is therefore reported inconclusive, never a violation. The control
+// that must be VIOLATED natively is H_ed25519fp_wide_composed_MUSTFAIL.
+func H_ed25519fp_wide_composed_wrong_EXPECT_INCONCLUSIVE() {
+	data := verifBytes(64)
+	verifReach("ed25519fp_wide_composed_wrong")
+	verifWideComposed(data, 37)
 }
 
 // H_ed25519fp_cert_MUSTFAIL: wrong twin of a lemma (certificate for weight 37 instead of 38),
